@@ -25,7 +25,7 @@ def handovers(seed, tier):
     for i in range(4 if tier == "quick" else 80):
         scs.append(dl.scenario_handover3(r, strategy="annot" if i % 4 == 3 else "native"))
         scs.append(dl.scenario_recreated(r, mask_old=[True] + [r.random() < 0.5 for _ in range(r.choice([0, 1]))]))
-    return scs
+    return [dl.place(sc) for sc in scs]
 
 
 def check(run, tier, seed, replay=None):
